@@ -48,7 +48,11 @@ claim("C18", "format-language evaluation of the boot entry names, byte-order flo
       "Decides: names are Boot + exactly four upper-case hex digits of the little-endian uint16 and are looked up unchanged; load-option and device-path node readers equal the UEFI layouts; the description uses the aligned terminator scan; "
       "the hard-drive text renders the right fields in order. Rendering and decoding for all values are not decided.", "DESIGN.md §4 C18")
 
+claim("C19", "interprocedural effect analysis over SSA: abstract locations (receiver-reachable, global, fresh, out-parameter) with a library effect table, context-sensitive through repo callees and closures",
+      "Decides that the 30 read-only API methods and everything they call store nothing into receiver-reachable or package-level memory, call no cursor-advancing or storage-writing method on a shared object "
+      "(fresh copies and declared output parameters are allowed), and append onto no shared backing array; race freedom of read-only operations follows. Value-level equality of repeated results is argued, not checked.", "DESIGN.md §4 C19")
+
 NA["C16"] = ("acceptance of third-party signatures depends on the bytes other tools emit at run time (attribute order/encoding "
              "chosen by OpenSSL/sbsign); the source holds no representation of them, so no structural condition beyond C04/C13 exists to check statically")
-for _i in ["C01","C03","C05","C06","C19"]:
+for _i in ["C01","C03","C05","C06"]:
     NA.setdefault(_i, "rule set for this property not built yet in this round (see DESIGN.md Appendix C); no static verdict is claimed")
